@@ -384,6 +384,15 @@ def run_property(mod, tier='quick', seed=0, replay=None):
             else:
                 failing = re.findall(r'File "\./([^"]+)", line (\d+)', pr['log'])
                 obligations.append(('theorems:%s' % mod.PROPS, False, pr['log'][-1500:]))
+        if tier == 'thorough' and getattr(mod, 'PROPS', None) and pr and pr['ok'] and not os.environ.get('VERIF_NO_COQCHK'):
+            # independent re-check of the compiled property theorems and everything they depend on
+            lib = 'V.' + mod.PROPS[:-2].replace('/', '.')
+            rc, out = sh(['timeout', '1500', 'coqchk', '-silent', '-o', '-Q', '.', 'V', lib], cwd=COQ, timeout=1530)
+            out = '\n'.join(l for l in out.splitlines() if 'conda' not in l)
+            axioms_none = 'Axioms: <none>' in out
+            clean = out.count('<none>') >= 4
+            obligations.append(('coqchk:%s' % lib, rc == 0 and axioms_none and clean,
+                                'rc=%d %s' % (rc, out[-600:].replace('\n', ' | '))))
         if hasattr(mod, 'extra_obligations'):
             obligations += list(mod.extra_obligations())
         # 3. cases
@@ -438,8 +447,8 @@ def run_property(mod, tier='quick', seed=0, replay=None):
             bad_prop = [tidx[i] for i in bp]
         for fn, out in errors:
             obligations.append(('correspondence-batch:' + os.path.basename(fn), False, out[-800:]))
-        sh = getattr(coq_eval_cases, 'last_shard', 400)
-        nbatches = (len(terms) + sh - 1) // sh if terms else 0
+        shard_size = getattr(coq_eval_cases, 'last_shard', 400)
+        nbatches = (len(terms) + shard_size - 1) // shard_size if terms else 0
         for b in range(nbatches - len(errors)):
             obligations.append(('correspondence-batch:%d' % b, True, ''))
         # 4. verdict
